@@ -481,6 +481,16 @@ def gen_cases(rng, tier):
             g.verify('verify_key_x_plus_p', z, der(r, s) + b'\x01', bytes([2 + (y & 1)]) + b32(x + P))
             g.verify('verify_key_x_plus_p', z, der(r, s) + b'\x01', b'\x04' + b32(x + P) + b32(y))
             g.verify('verify_key_small_x', z, der(r, s) + b'\x01', bytes([2 + (y & 1)]) + b32(x))
+    # ... but one is constructible: (r, r) with r = x(5 G + Q) signs z = 5 r under ANY curve point Q (u1 = 5, u2 = 1)
+    for x in (1, 2, 3, 4, 6, 8):
+        a = (x ** 3 + 7) % P
+        y = pow(a, (P + 1) // 4, P)
+        if y * y % P == a:
+            r = affine(jadd(jmul(5, G), (x, y, 1)))[0] % N
+            z = b32(5 * r % N)
+            g.verify('verify_key_small_x_valid', z, der(r, r) + b'\x01', bytes([2 + (y & 1)]) + b32(x))
+            g.verify('verify_key_x_plus_p_valid', z, der(r, r) + b'\x01', bytes([2 + (y & 1)]) + b32(x + P))
+            g.verify('verify_key_x_plus_p_valid', z, der(r, r) + b'\x01', b'\x04' + b32(x + P) + b32(y))
     # r, s at and beyond the range boundaries, both spellings
     d, z, r, s = valid()
     pk = pk_of(d)
@@ -550,7 +560,12 @@ def gen_cases(rng, tier):
 
 
 def same(c, io, mo):
-    return io == mo.split('|')[0]
+    m = mo.split('|')
+    if io == m[0]:
+        return True
+    # a key spelled with a coordinate >= p is built by Key(), which belongs to C04: if C04's repair makes Key()
+    # refuse that spelling, the refusal is accepted here (the model's class flag says the key is unreduced)
+    return len(m) > 1 and 'unred=1' in m[1] and io == 'ERR'
 
 
 def is_trivial(c, out):
@@ -636,19 +651,32 @@ def _sig_of(c):
     return None
 
 
-def _short_der(c, io, mo):
+def _der64(c, io, mo):
     sig = _sig_of(c)
-    return sig is not None and bip66(sig) and len(sig) <= 64
+    return sig is not None and bip66(sig) and len(sig) == 64
 
 
 def _lax_der(c, io, mo):
     sig = _sig_of(c)
-    return sig is not None and len(sig) > 64 and sig[:1] == b'\x30' and not bip66(sig)
+    return sig is not None and len(sig) != 64 and sig[:1] == b'\x30' and not bip66(sig)
+
+
+def _unreduced_key(c, io, mo):
+    t = c.req.split(' ')
+    if t[0] != 'verify':
+        return False
+    pk = unhx(t[3])
+    if len(pk) == 33 and pk[0] in (2, 3):
+        return int.from_bytes(pk[1:], 'big') >= P
+    if len(pk) == 65 and pk[0] == 4:
+        return int.from_bytes(pk[1:33], 'big') >= P or int.from_bytes(pk[33:], 'big') >= P
+    return False
 
 
 KNOWN_CLASSES = {
-    'short_der_rejected': _short_der,
+    'der64_read_as_raw': _der64,
     'lax_der_accepted': _lax_der,
+    'pubkey_coordinate_unreduced': _unreduced_key,
 }
 
 
